@@ -21,7 +21,7 @@ def cases(classes=7, max_v=6, max_e=10):
         st.one_of(graphs.graph_descs(max_v, max_e, classes, max_reassign=2, wide=True), graphs.graph_descs(max_v, max_e, classes, min_v=3, min_e=3, max_reassign=2, wide=True),
                   graphs.graph_descs(max_v, max_e, 12 if classes >= 7 else classes, min_v=2, min_e=2, max_reassign=2, wide=True)),
         st.lists(st.integers(0, max_v - 1), max_size=max_v),
-        st.integers(0, 2047),
+        st.integers(0, 4095),
         st.integers(0, 7),
         # scaled-up worlds: a member with 70 / 300 links (the leaves are members in every other case), and
         # universes whose first 258 / 300 members are isolated fillers (the generated members come after them)
